@@ -98,6 +98,52 @@ Proof.
   destruct C40_tables_ok as [H1 [H2 _]]. destruct Ht as [<-|[<-|[]]]; assumption.
 Qed.
 
+(* "after the configured delay has elapsed", read literally, also fails at the end of the consensus
+   manager's i32 minute clock: compare_current_time converts allowed_after to an i32 minute and
+   SATURATES to i32::MAX when it does not fit, so at minute i32::MAX (A.D. ~6053, the last value the
+   clock can take) a timed recovery whose due time lies beyond the clock is confirmable although
+   the delay has not elapsed (finding class timed_confirm_clock_saturation; replayed on the engine
+   by the last case of each ledger: delay 20, proposed at minute 2147483637, confirmed at 2147483647) *)
+Theorem C40_timed_confirm_clock_saturation_refuted : forall t, In t [table_v1; table_v2] ->
+  exists rs (d : N) (n0 : Z) evs (hist : list entry) (h : entry) (rest : list entry),
+    run t (create rs (Some d)) evs = hist ++ h :: rest /\
+    changed (h_before h) (h_after h) /\ h_out h = Ok /\
+    (exists p, e_meth (h_ev h) = MTimedConfirm p /\
+               In {| h_before := create rs (Some d);
+                     h_ev := {| e_who := [1%N]; e_now := n0; e_meth := MInitRec PRecovery p |};
+                     h_after := h_before h; h_out := Ok |} hist) /\
+    Horizon n0 d /\ e_now (h_ev h) < n0 + Z.of_N d.
+Proof.
+  intros t Ht.
+  set (p := {| p_rules := {| rs_primary := RReq 3; rs_recovery := RReq 4; rs_confirmation := RReq 5 |}; p_delay := None |}).
+  set (rs := {| rs_primary := RReq 0; rs_recovery := RReq 1; rs_confirmation := RReq 2 |}).
+  set (e1 := {| e_who := [1%N]; e_now := 2147483637; e_meth := MInitRec PRecovery p |}).
+  set (e2 := {| e_who := [1%N]; e_now := 2147483647; e_meth := MTimedConfirm p |}).
+  exists rs, 20%N, 2147483637, [e1; e2].
+  destruct Ht as [<-|[<-|[]]];
+    (eexists [_], _, []; split; [vm_compute; reflexivity|];
+     split; [left; vm_compute; discriminate|]; split; [reflexivity|];
+     split; [exists p; split; [reflexivity|left; reflexivity]|];
+     split; [unfold Horizon, i32_max; cbn; reflexivity|cbn; reflexivity]).
+Qed.
+
+(* outside that class the delay HAS elapsed: with the proposal made at minute n0 on a controller with
+   delay d (this is what J_timed's ProposedTimed records: allowed_after = n0*60 + d*60), a
+   committed timed confirmation at minute `now` satisfies now >= n0 + d *)
+Theorem C40_delay_elapsed_except_known : forall n0 d now,
+  i32_min <= n0 + Z.of_N d -> ~ Horizon n0 d ->
+  time_elapsed now (n0 * 60 + Z.of_N d * 60) = true -> n0 + Z.of_N d <= now.
+Proof. exact delay_elapsed_except_horizon. Qed.
+
+(* NOT a violation of this property: the timed_recovery_delay_in_minutes carried by a proposal is part
+   of proposal equality (quick/timed confirm and stop compare it) but is never applied — after a
+   confirmed recovery the controller keeps the delay it was created with. The property restricts WHEN
+   the rules may be replaced and the asset withdrawn; it does not demand that anything else be
+   updated, and an unchanged delay cannot let a change through. The behaviour is pinned here. *)
+Theorem C40_delay_never_changes : forall t evs c h, In h (run t c evs) ->
+  c_delay (h_before h) = c_delay c /\ c_delay (h_after h) = c_delay c.
+Proof. exact delay_never_changes. Qed.
+
 (* below the end of the i32 minute clock the timer test is exact *)
 Theorem C40_time_elapsed_exact : forall m now,
   i32_min <= m <= i32_max -> (time_elapsed now (m * 60) = true <-> m <= now).
@@ -126,3 +172,6 @@ Print Assumptions C40_stop_timed_blocks_timer.
 Print Assumptions C40_timed_confirm_any_caller_refuted.
 Print Assumptions C40_change_needs_two_except_known.
 Print Assumptions C40_time_elapsed_exact.
+Print Assumptions C40_timed_confirm_clock_saturation_refuted.
+Print Assumptions C40_delay_elapsed_except_known.
+Print Assumptions C40_delay_never_changes.
